@@ -72,14 +72,7 @@ func run(t *rapid.T, deterministic bool) {
 	rec := &mach.Rec{}
 	rec.Op("cfg sess=%d boxes=%d det=%v bulk=%v nopar=%v", cfg.NSess, nBoxes, deterministic, cfg.Opts.IdleBulk, cfg.Opts.DisableParallelism)
 
-	for _, s := range w.S {
-		box := w.PickBox(t)
-		if r := s.Select(box, false); !r.OK() {
-			t.Fatalf("select: %v", r)
-		}
-
-		rec.Op("%s select %s", s.Name, box)
-	}
+	w.SelectAll(t, rec, 0)
 
 	panics := func() {
 		if err := w.Bed.CheckPanics(); err != nil {
